@@ -20,6 +20,7 @@ func init() {
 			"D4 the type of a merged iterator does not depend on the arrival order of the inputs: the reader of a remote answer without data (a placeholder that claims a typed iterator interface) is recognised by Iterators.dataType, while ClusterShardMapping.CreateIterator collects its inputs inside goroutines (found and fixed in 883e4b4). " +
 			"D5 a series is its name AND its tag set: every condition that compares both for one pair of subjects joins 'name differs' and 'tags differ' with ||, or 'equal' and 'equal' with && (13 sites); D6 every fan-out of the cluster mappings asks every remote shard group before it may return a result, unless the path established that there are none (shared with C05 D7). " +
 			"D7 the cache read concatenates the retained snapshot's entry before the live store's entry on every path (Values.Deduplicate keeps the last value of a timestamp, so the reverse order lets an older snapshot value override a newer acknowledged write while a snapshot is in flight or retained after a failed flush) (shared with C02/C09). " +
+			"D8 the shard-group time predicates that select what a statement reads (Overlaps, Contains, ShardGroupsByTimeRange ...) equal their specification on every ordering of their operands, so the answer does not depend on where shard-group boundaries fall (shared with C05/C06/C08). " +
 			"NOT decided: window arithmetic, fill values, aggregate functions, limit/offset, equality of multi-shard and single-shard results.",
 		RuleText:    "obligation = (rule, function | struct field | site); struct-field coverage of codecs; marked path exploration + exhaustive evaluation of the compiled path conditions over all weak orderings; comparison-sequence mirror agreement",
 		Assumptions: commonAssumptions,
@@ -36,6 +37,7 @@ func runC11(c *core.Ctx) {
 	c.Clause("D5", func() { runSeriesIdentityTests(c) })
 	c.Clause("D6", func() { runEveryRemoteGroupConsulted(c) })
 	c.Clause("D7", func() { runCacheReadOrder(c) })
+	c.Clause("D8", func() { runTimePredicates(c) })
 }
 
 // runSeriesIdentityTests: a series is identified by its name AND its tag set. Wherever one condition compares
